@@ -140,9 +140,10 @@ pub enum EvKind {
 
 pub struct HookCtl {
     /// slot 0: worker (`Run*`) points, slot 1: `Tick*` points
-    pub pause_at: [Option<Point>; 2],
-    pub paused: [Option<Point>; 2],
-    pub release: [bool; 2],
+    /// slot 2: a second background run (of another matcher) while slot 0 is occupied
+    pub pause_at: [Option<Point>; 3],
+    pub paused: [Option<Point>; 3],
+    pub release: [bool; 3],
     pub pause_timeouts: u64,
     pub events: Vec<(u64, EvKind)>,
     pub record: bool,
@@ -168,9 +169,9 @@ fn slot_of(p: Point) -> Option<usize> {
 pub fn with_ctl<R>(f: impl FnOnce(&mut HookCtl) -> R) -> R {
     let mut g = CTL.lock().unwrap();
     let ctl = g.get_or_insert_with(|| HookCtl {
-        pause_at: [None; 2],
-        paused: [None; 2],
-        release: [false; 2],
+        pause_at: [None; 3],
+        paused: [None; 3],
+        release: [false; 3],
         pause_timeouts: 0,
         events: Vec::new(),
         record: false,
@@ -270,6 +271,8 @@ pub fn worker_hook(p: Point) {
     if ctl.record {
         ctl.events.push((stamp(), EvKind::Point(p)));
     }
+    // a second run parks in slot 2 (only looked at for worker points that slot 0 does not claim)
+    let slot = if slot == 0 && ctl.pause_at[0] != Some(p) && ctl.pause_at[2] == Some(p) { 2 } else { slot };
     if ctl.pause_at[slot] == Some(p) {
         if std::env::var_os("C20_TRACE").is_some() {
             eprintln!("{:?} hook: pausing at {p:?} (release flag {:?})", Instant::now(), ctl.release);
@@ -291,6 +294,9 @@ pub fn worker_hook(p: Point) {
             let now = Instant::now();
             if now >= deadline {
                 ctl.pause_timeouts += 1;
+                if std::env::var_os("C20_TRACE").is_some() {
+                    eprintln!("pause timeout in slot {slot} at {p:?}");
+                }
                 ctl.paused[slot] = None;
                 break;
             }
@@ -327,6 +333,14 @@ pub fn pause_at(p: Point) {
     with_ctl(|c| {
         c.pause_at[slot] = Some(p);
         c.release[slot] = false;
+    });
+}
+
+/// like `pause_at` for a second background run while slot 0 is in use (release with `release(2)`)
+pub fn pause_second_run_at(p: Point) {
+    with_ctl(|c| {
+        c.pause_at[2] = Some(p);
+        c.release[2] = false;
     });
 }
 
@@ -392,6 +406,7 @@ pub fn release_to(slot: usize, next: Option<Point>) {
 pub fn release_all() {
     release(0);
     release(1);
+    release(2);
 }
 
 pub fn hits(p: Point) -> u64 {
@@ -440,8 +455,8 @@ pub fn record_event(k: EvKind) -> u64 {
 
 pub fn reset_ctl(record: bool) {
     with_ctl(|c| {
-        c.pause_at = [None; 2];
-        c.release = [false; 2];
+        c.pause_at = [None; 3];
+        c.release = [false; 3];
         c.events.clear();
         c.record = record;
         c.hits.clear();
